@@ -128,10 +128,21 @@ def sample_closed(rng, n, count):
     return out
 
 
+def corpus_graphs():
+    """Minimised inputs on which a seeded change once failed (corpus/graphs.json, committed; only
+    ever read here). They run first, whatever the seed."""
+    import json
+    import os
+    p = os.path.join(os.path.dirname(os.path.dirname(os.path.abspath(__file__))), "corpus", "graphs.json")
+    if not os.path.exists(p):
+        return []
+    return [tuple(tuple(x) for x in e["succ"]) for e in json.load(open(p)) if closed(e["succ"])]
+
+
 def graph_inputs(tier, seed):
     """The closed-CFG inputs of one run: list of (generator tag, succ)."""
     rng = random.Random(seed * 1000003 + 17)
-    out = []
+    out = [("G0-corpus", s) for s in corpus_graphs()]
     for n in (1, 2, 3, 4):
         out += [("G1-exhaustive-n%d" % n, s) for s in all_closed(n)]
     if tier == "quick":
